@@ -7,6 +7,7 @@ import PsModel.Spec.C15
 * state = `none | (st <fn> checkNow parseOK [hold|none holdFalse|none])`     event = `none | (ev <fn>|nofilt parseOK)`     mqtt = `none | (mq parseOK)`
 * fn    = `(gt n) | (ge n) | (eq n) | (ne n) | (const b) | (raiseat n <fn>) | (or <fn> <fn>)`  (raises when the argument is `n`)
 * time  = `none | (abs t) | (rel d)`        timeout = `none | n`        item = `(s v) | (e d) | (c)`
+* the cfg may carry a sixth element `(en startup shutdown)`: `"startup"` / `"shutdown"` entries of the time_trigger list
 `L`/`N` run the machines with `Flags.current`, `Lp`/`Np` with `Flags.preFix`.  The tables are given / printed as counts; the call's own queue is number 7, pre-existing ones 100, 101, ….
 -/
 namespace PsModel.C15
@@ -111,18 +112,32 @@ def showExit : Exit → String
 def showTables (t : Tables) : String :=
   s!"(tb {t.stSubs.length} {t.evSubs.length} {t.evListeners} {t.mqSubs.length} {t.mqListeners} {t.tasks})"
 
-def handle (x : Sexp) : String :=
-  match x with
-  | .list [.atom mode, .list [.atom "cfg", st, tm, ev, mq, to], tb, v, call, .list (.atom "hist" :: items)] =>
+def entries? : Sexp → Option Entries
+  | .list [.atom "en", a, b] => do pure { startup := (← a.bool?), shutdown := (← b.bool?) }
+  | _ => Option.none
+
+def handleCfg (mode : String) (st tm ev mq to : Sexp) (en : Entries) (tb v call : Sexp) (items : List Sexp) : String :=
     match state? st, time? tm, event? ev, mqtt? mq, timeout? to, tables? tb, v.nat?, call.nat?, Sexp.mapM? item? items with
     | some s, some t, some e, some m, some o, some tbl, some v0, some c, some hist =>
       let cfg : Cfg := { state := s, time := t, event := e, mqtt := m, timeout := o }
-      let fl := if mode == "Lp" || mode == "Np" then Flags.preFix else Flags.current
-      let r := if mode == "L" || mode == "Lp" then Legacy.runAt fl cfg 7 tbl v0 c hist else New.runAt fl cfg 7 tbl v0 c hist
+      let pre := mode == "Lp" || mode == "Np"
+      let fl := if pre then Flags.preFix else Flags.current
+      let acted := if pre then entriesActedPreFix else entriesActedCurrent
+      let r := if mode == "L" || mode == "Lp" then Legacy.runAtE en fl cfg 7 tbl v0 c hist
+               else New.runAtE acted en fl cfg 7 tbl v0 c hist
       -- the first-of specification speaks about calls without holds; hold calls are judged by the Python oracle
       let sp := if (Legacy.holdTrig cfg).isSome then "-" else showExit (Spec.first cfg (valueAt v0 c hist) c (after c hist))
       s!"ok {showExit r.1} {showTables r.2} ## {sp}"
     | _, _, _, _, _, _, _, _, _ => "err parse"
+
+def handle (x : Sexp) : String :=
+  match x with
+  | .list [.atom mode, .list [.atom "cfg", st, tm, ev, mq, to], tb, v, call, .list (.atom "hist" :: items)] =>
+    handleCfg mode st tm ev mq to Entries.none tb v call items
+  | .list [.atom mode, .list [.atom "cfg", st, tm, ev, mq, to, en], tb, v, call, .list (.atom "hist" :: items)] =>
+    match entries? en with
+    | some e => handleCfg mode st tm ev mq to e tb v call items
+    | Option.none => "err parse"
   | _ => "err bad-command"
 
 end PsModel.C15
